@@ -1028,9 +1028,89 @@ fn vertical_tab_cases(opts: &MatchOpts, rep: &mut Report) {
     }
 }
 
+/// Haystacks and needles handed over as strings and converted by the library's own constructors (everything else in this suite
+/// builds the two representations directly): ASCII texts with carriage returns and line feeds in every arrangement. The
+/// anchored algorithms must give the result they give for the documented content of the converted text (CR LF is one
+/// character, a line feed; a text with such a pair is held as code points, any other ASCII text as bytes).
+fn converted_text_cases(opts: &MatchOpts, rep: &mut Report) {
+    let mut matcher = initial_matcher(opts.seed, opts.shard, 10);
+    let alphabet = ['a', 'b', '\r', '\n', '\r', '\n', ' ', 'c', '/'];
+    let documented = |s: &[char]| -> Vec<char> {
+        let mut out = Vec::new();
+        let mut i = 0;
+        while i < s.len() {
+            if s[i] == '\r' && s.get(i + 1) == Some(&'\n') {
+                out.push('\n');
+                i += 2;
+            } else {
+                out.push(s[i]);
+                i += 1;
+            }
+        }
+        out
+    };
+    for k in 0..12000u64 {
+        let mut rng = Rng::new(mix(&[opts.seed, opts.shard, k, 0x0d0a]));
+        let cfg = gen_cfg(&mut rng, false);
+        let hl = rng.range(1, 12);
+        let hay_raw = gen_text(&mut rng, &alphabet, hl);
+        let hay_doc = documented(&hay_raw);
+        let nl = rng.range(1, 4).min(hay_doc.len());
+        let s = match rng.below(3) {
+            0 => 0,
+            1 => hay_doc.len() - nl,
+            _ => rng.below(hay_doc.len() - nl + 1),
+        };
+        // the needle is a piece of the documented content, written the way a user would write it (a line feed of the content may
+        // be typed as CR LF)
+        let needle_doc: Vec<char> = hay_doc[s..s + nl].to_vec();
+        let needle_raw: Vec<char> = needle_doc.iter().flat_map(|&c| if c == '\n' && rng.coin() { vec!['\r', '\n'] } else { vec![c] }).collect();
+        let needle_doc = documented(&needle_raw);
+        let (hs, ns): (String, String) = (hay_raw.iter().collect(), needle_raw.iter().collect());
+        let (mut hb, mut nb) = (Vec::new(), Vec::new());
+        let hay_has_pair = hay_raw.windows(2).any(|w| w == ['\r', '\n']);
+        let needle_has_pair = needle_raw.windows(2).any(|w| w == ['\r', '\n']);
+        let (ht, nt) = (Text::new(hay_doc.clone()), Text::new(needle_doc.clone()));
+        matcher.config = cfg.real();
+        for algo in [Algo::Substring, Algo::Prefix, Algo::Postfix, Algo::Exact, Algo::Fuzzy, Algo::Greedy] {
+            rep.count("c05.calls-on-converted-strings");
+            let (mut i1, mut i2) = (Vec::new(), Vec::new());
+            let r = caught(|| {
+                let h = nucleo_matcher::Utf32Str::new(&hs, &mut hb);
+                let n = nucleo_matcher::Utf32Str::new(&ns, &mut nb);
+                let a = call(&mut matcher, algo, h, n, Some(&mut i1));
+                let b = call(&mut matcher, algo, ht.view(!hay_has_pair), nt.view(!needle_has_pair), Some(&mut i2));
+                (a, b)
+            });
+            let bad = match &r {
+                Ok((a, b)) => a != b || i1 != i2,
+                Err(_) => true,
+            };
+            if bad {
+                rep.violation(
+                    "C05",
+                    "result-differs-for-a-haystack-converted-from-a-string",
+                    format!("converted|{}", algo.name()),
+                    jobj! {"haystack_string" => show_chars(&hay_raw), "needle_string" => show_chars(&needle_raw), "documented_content" => show_chars(&hay_doc),
+                           "config" => format!("{cfg:?}"), "result (converted, built directly)" => format!("{r:?}"),
+                           "indices_converted" => i1.iter().map(|&x| x as u64).collect::<Vec<u64>>(), "indices_built_directly" => i2.iter().map(|&x| x as u64).collect::<Vec<u64>>(),
+                           "case_id" => format!("{}:{}:cv{}", opts.seed, opts.shard, k)},
+                );
+                if r.is_err() {
+                    matcher = initial_matcher(opts.seed, opts.shard, 10);
+                }
+                return;
+            }
+        }
+    }
+}
+
 pub fn run(opts: &MatchOpts, props: &Props, pools: &Pools, rep: &mut Report) {
     if props.c03 && opts.replay.is_none() && !opts.long_only && opts.shard % 4 == 1 {
         vertical_tab_cases(opts, rep);
+    }
+    if props.c05 && opts.replay.is_none() && !opts.long_only && opts.shard % 4 == 2 {
+        converted_text_cases(opts, rep);
     }
     let mut matcher = initial_matcher(opts.seed, opts.shard, 0);
     let range: Box<dyn Iterator<Item = u64>> = match opts.replay {
